@@ -51,6 +51,8 @@ static std::vector<double> makeRadii(int nr, int coords)
     for (int i = 0; i < nr; i++) {
         if (coords == 0)
             r[i] = 0.1 + 1.2 * i / (nr - 1);
+        else if (coords >= 100) // uniform annulus whose inner radius is (coords - 100) / 40 of the outer one (automatic-split sweep)
+            r[i] = 1.3 * ((coords - 100) / 40.0) + 1.3 * (1.0 - (coords - 100) / 40.0) * i / (nr - 1);
         else // irregular, strictly increasing
             r[i] = 1e-5 + 1.3 * (i == 0 ? 0.0 : pow((double)i / (nr - 1), 1.7)) + (i % 2 ? 0.013 : 0.0) * (i < nr - 1);
     }
@@ -92,6 +94,13 @@ static void checkGrid(const PolarGrid& g, const std::vector<double>& radii, cons
         g.numberCircularSmootherNodes() + g.numberRadialSmootherNodes() != N) {
         viol("split:partition", "circle/radial split does not partition the nodes", s);
         return;
+    }
+    if (s.autoSplit && nr >= 5) {
+        // the automatic split keeps the minimum sizes every smoother relies on: at least 2 circles (3 once nr > 5) and radial
+        // lines of at least 3 nodes
+        if (C < 2 || L < 3 || (nr > 5 && C < 3))
+            viol("split:auto-minimum", "the automatic split leaves " + std::to_string(C) + " circles and radial lines of " + std::to_string(L) +
+                                            " nodes (needed: >= 2 (3 for nr > 5) circles, >= 3 radial nodes)", s);
     }
     if (!s.autoSplit) {
         if (s.split < radii.front() && C != 0) {
@@ -331,6 +340,20 @@ int main(int argc, char** argv)
                     for (auto& s : specs)
                         if ((counter++ % nparts) == part)
                             runSpec(s);
+                }
+    }
+    if (mode != "replay") {
+        // automatic-split sweep: many angular nodes per radial node and 39 inner radii, so that the radius at which the angular
+        // arc first exceeds the radial step passes through every circle, the last interior one included
+        bool thorough = argc > 2 && std::string(argv[2]) == "thorough";
+        int part = argc > 3 ? atoi(argv[3]) : 0, nparts = argc > 4 ? atoi(argv[4]) : 1;
+        long counter = 0;
+        for (int nr : {5, 6, 7, 9, 11})
+            for (int nt : (thorough ? std::vector<int>{16, 32, 64, 128, 256} : std::vector<int>{32, 64, 128}))
+                for (int k = 1; k < 40; k++) {
+                    Spec sp{nr, nt, 100 + k, true, 0.0, "auto-sweep"};
+                    if ((counter++ % nparts) == part)
+                        runSpec(sp);
                 }
     }
     printf("STAT grids %ld\nSTAT queries %ld\nSTAT coarsenings %ld\nSTAT distinct_shapes %zu\nSTAT violations %ld\n",
